@@ -26,7 +26,8 @@ func stdEval() rel.Attr {
 func evalExpr(ctx context.Context, v rel.Value) (rel.Value, error) {
 	switch val := v.(type) {
 	case rel.String, rel.Bytes:
-		evaluated, err := EvaluateExpr(ctx, ".", val.String())
+		// Evaluate with the safe library: an empty scope would make `//` fall back to the full, unsafe one.
+		evaluated, err := EvalWithScope(ctx, ".", val.String(), SafeStdScope())
 		if err != nil {
 			panic(err)
 		}
